@@ -146,6 +146,13 @@ struct World {
     bool repeat;                                                          // call prepare()/compute() a second time on every object (idempotence)
     std::vector<MatrixType> saved_blocks;                                 // hsave / hcheck
     bool symm_used = false;
+    // phased mode: all prepare() calls first, the compute() calls afterwards (rho.prepare(); ops.prepareAll(); G.prepare(); rho.compute();
+    // ops.computeAll(); G.compute(); ...): "rho" and "ops" only prepare, the first consumer finishes them after its own prepare()
+    bool phased = false, rho_pending = false, ops_pending = false;
+    void finish_phase() {
+        if (rho_pending) { rho_pending = false; rho->compute(); }
+        if (ops_pending) { ops_pending = false; Ops->computeAll(); }
+    }
     bool early = false; double early_beta = 1.0;                           // construct the whole object chain before the first prepare()/compute()
     bool have_tol2 = false; double tol2[3] = {1e-8, 1e-16, 1e-5};           // user-set precision knobs of two-particle objects (public members)
     World() : repeat(false) {}
@@ -325,6 +332,9 @@ static std::string exec_line(World*& W, long lineno, const std::string& line) {
     std::string cmd = t.word();
 
     if (cmd == "new") { delete W; W = new World(); J.kvi("ok", 1); return J.done(); }
+    if (cmd == "phased") { W->phased = t.l() != 0; J.kvi("ok", 1); return J.done(); }
+    if ((W->rho_pending || W->ops_pending) && cmd != "rho" && cmd != "ops" && cmd != "gf" && cmd != "gfc" && cmd != "susc" && cmd != "chi" && cmd != "group")
+        W->finish_phase();
     // sub-communicators: "split k" replaces the world communicator of this scenario by world.split(rank % k); "group g <command>" runs the
     // command only on the ranks of group g (the others answer {"skipped":1}), so that the groups can work on different models concurrently
     if (cmd == "split") {
@@ -618,6 +628,7 @@ static std::string exec_line(World*& W, long lineno, const std::string& line) {
     if (cmd == "rho") {
         double beta = t.d();
         if (!(W->early && W->rho && beta == W->early_beta)) W->rho.reset(new DensityMatrix(W->s(), W->h(), beta));
+        if (W->phased) { W->rho->prepare(); W->rho_pending = true; J.kvi("ok", 1); return J.done(); }
         W->rho->prepare(); W->rho->compute();
         if (W->repeat) { W->rho->prepare(); W->rho->compute(); }
         J.kvi("ok", 1); return J.done();
@@ -678,6 +689,7 @@ static std::string exec_line(World*& W, long lineno, const std::string& line) {
         std::set<ParticleIndex> in;
         for (long q = 0; q < k; q++) in.insert(t.l());
         W->Ops.reset(new FieldOperatorContainer(W->ic(), W->s(), W->h()));
+        if (W->phased) { W->Ops->prepareAll(in); W->ops_pending = true; J.kvi("ok", 1); return J.done(); }
         W->Ops->prepareAll(in); W->Ops->computeAll();
         J.kvi("ok", 1); return J.done();
     }
@@ -707,7 +719,7 @@ static std::string exec_line(World*& W, long lineno, const std::string& line) {
         std::set<IndexCombination2> in;
         for (long q = 0; q < k; q++) { long i = t.l(), j = t.l(); in.insert(IndexCombination2(i, j)); }
         W->GFC.reset(new GFContainer(W->ic(), W->s(), W->h(), W->dm(), W->ops()));
-        W->GFC->prepareAll(in); W->GFC->computeAll();
+        W->GFC->prepareAll(in); W->finish_phase(); W->GFC->computeAll();
         J.kvi("ok", 1); return J.done();
     }
     if (cmd == "gf") {
@@ -722,10 +734,11 @@ static std::string exec_line(World*& W, long lineno, const std::string& line) {
             G = &(*W->GFC)(i, j);
             // an element the bulk prepareAll()/computeAll() holds is read as it is; only an element created on demand
             // by this lookup is prepared and computed here
+            W->finish_phase();
             if (!listed) { G->prepare(); G->compute(); }
         } else {
             own.reset(new GreensFunction(W->s(), W->h(), W->c_of(src, i), W->cdag_of(src, j), W->dm()));
-            own->prepare(); own->compute(); G = own.get();
+            own->prepare(); W->finish_phase(); own->compute(); G = own.get();
             if (W->repeat) { own->prepare(); own->compute(); }
         }
         J.kvi("vanishing", G->isVanishing() ? 1 : 0);
@@ -755,7 +768,7 @@ static std::string exec_line(World*& W, long lineno, const std::string& line) {
         // susc a b c d  sub <mode 0|1|2|3> [are aim bre bim]  n <k> ..  z <k> ..  tau <k> ..
         long a = t.l(), b = t.l(), c = t.l(), d = t.l();
         std::unique_ptr<Susceptibility> X_p(new Susceptibility(W->s(), W->h(), W->quad_op(a, b), W->quad_op(c, d), W->dm())); Susceptibility& X = *X_p;
-        X.prepare(); X.compute();
+        X.prepare(); W->finish_phase(); X.compute();
         if (W->repeat) { X.prepare(); X.compute(); }
         J.kvi("vanishing", X.isVanishing() ? 1 : 0);
         while (t.more()) {
@@ -809,7 +822,7 @@ static std::string exec_line(World*& W, long lineno, const std::string& line) {
         std::unique_ptr<TwoParticleGF>& X = W->chis[name];
         X.reset(new TwoParticleGF(W->s(), W->h(), W->c_of(src, i), W->c_of(src, j), W->cdag_of(src, k), W->cdag_of(src, l), W->dm()));
         if (W->have_tol2) { X->ReduceResonanceTolerance = W->tol2[0]; X->CoefficientTolerance = W->tol2[1]; X->MultiTermCoefficientTolerance = W->tol2[2]; }
-        X->prepare();
+        X->prepare(); W->finish_phase();
         std::vector<ComplexType> table;
         if (mode == "table") { std::vector<freq_tuple> f = read_freqs(t); table = X->compute(clear != 0, f, W->comm); }
         else if (mode == "default") { table = X->compute(); }
